@@ -10,7 +10,7 @@ that point; the bytes left on disk are compared with the model's prediction
 (correspondence) and with the property text (direct oracle: target is entirely
 the old or the new version, the real loader loads it to the old or new state, the
 loader opens nothing but the target)."""
-import builtins, codecs, errno, io, json, os, shutil, sys, time, traceback
+import builtins, codecs, errno, gc, io, json, os, shutil, sys, time, traceback
 import boot
 
 TABLES = ['T17']
@@ -19,8 +19,13 @@ RULE = ('cases = (caller in raw AtomicFile API / users / channels / networks / i
         '(os.rename made to fail with EXDEV as the kernel does; a real second file system (/dev/shm) is used too when present)) x '
         '(backupDir none / dir / /dev/null) x flags; every case is run once uncrashed with the I/O primitives wrapped (effect list '
         'compared with the model) and then once per crash point (before and after every effect; kill by os._exit in a forked child), '
-        'the disk being compared with the model prediction and with the property.  one evaluation = one (case, crash point); '
-        'non-trivial = distinct (case, crash point) with at least one effect executed')
+        'the disk being compared with the model prediction and with the property.  Second death mode: at the same points an exception is '
+        'RAISED (SystemExit as from the SIGTERM handler at every point, KeyboardInterrupt at a fifth of them (half in the thorough tier), '
+        'an OSError at the writes/close of the temp file), the stack unwinds through the real finally/except/with blocks, the AtomicFile '
+        'object is collected (__del__), the child exits normally; effect sequence and disk are compared with the model (prefix + '
+        'unwinding; or, where the regenerated table says the caller swallows write errors, the committed file without that chunk) and '
+        'with the property.  one evaluation = one (case, fault point, death mode); '
+        'non-trivial = distinct (case, fault point, mode) with at least one effect executed')
 TRUSTED = ['the file-system model itself (POSIX contract, not Limnoria code): rename is an atomic replace, append extends, open(w) truncates, '
            'open(a) creates an empty file iff absent, data handed to the kernel survives process death; power loss / fsync ordering is out of scope',
            'utils.file.mktemp (token uniqueness: tokens are 40 hex digits, an explicit input of the model with contract token_ok) and '
@@ -28,13 +33,20 @@ TRUSTED = ['the file-system model itself (POSIX contract, not Limnoria code): re
            'shutil.copyfile/move/copy of CPython 3.12 are modelled (truncate + sendfile chunks + unlink), not verified; the wrapper caps '
            'os.sendfile counts to make several chunks (legal kernel behaviour)',
            'cross-device rename is simulated by raising OSError(EXDEV) from os.rename when no second file system is available',
+           'death by exception: the fault is raised from the wrappers of the I/O primitives (before/after each effect), once; exceptions '
+           'raised while the object is being finalised (__del__) are ignored by CPython and are not fault points; which source lines '
+           'swallow a write error / commit on unwinding comes from harness/tables/t17.py (ast scan of every AtomicFile call site)',
            'user-space buffering of the temp file: before its close the on-disk temp file is only required to be a prefix of the model content']
-ASSUMPTIONS = ['world.testing/log.testing off', 'crash = process death (os._exit); kernel keeps completed system calls',
+ASSUMPTIONS = ['world.testing/log.testing off', 'crash = process death (os._exit) or an exception (SystemExit/KeyboardInterrupt/OSError) raised '
+               'at an effect boundary that unwinds the stack, after which the process exits normally; kernel keeps completed system calls',
                'tmpDir/backupDir exist and are writable; no concurrent writer to the same target']
 LEVEL_TEXT = ('Coq theorems over an executable effect-list model of utils.file.AtomicFile on a file-system model (crash = any prefix of the '
               'effect list): with the temp file on the same file system the target is, after every prefix, exactly the old or the new content '
               '(or empty on a first-ever save); refuted with a witness when tmpDir is on another file system (finding F20), where the target is '
-              'proved to be old or a prefix of new; temp/backup names never alias the target; rollback, empty-overwrite and backup rules.  The '
+              'proved to be old or a prefix of new; temp/backup names never alias the target; rollback, empty-overwrite and backup rules; the same atomicity when death is an exception '
+              'that unwinds the stack (prefix of the effects followed by what __del__/__exit__ and the callers do, taken from the regenerated '
+              'table: no caller commits in finally/except), refuted with a witness for registry.close, which swallows the I/O error of a write '
+              'and commits the file without that value (finding F44).  The '
               'model is tied to the source by regenerated naming constants/defaults and by fault enumeration on the real code: real effect '
               'sequence and on-disk bytes after a kill at every effect boundary are compared with the model for all callers.')
 LEVEL_NOTE = ('Trusted: Coq kernel, gen_tables.py, extraction + OCaml driver, the Python harness (I/O wrappers, fork/kill machinery), the POSIX '
@@ -53,8 +65,10 @@ CALLERS = ('users', 'channels', 'networks', 'ignores', 'userdata', 'vacuum', 're
 # instrumentation (runs in the grandchild only)
 class Rec:
     def __init__(self, crash, chunk, exdev, xdir, logfd):
-        self.events, self.writes = [], []
-        self.crash = tuple(crash) if crash else None
+        self.events, self.writes, self.wsrc = [], [], []
+        self.crash = (crash[0], crash[1]) if crash else None
+        self.mode = crash[2] if crash and len(crash) > 2 else 'kill'
+        self.fired = None
         self.chunk, self.exdev, self.xdir, self.logfd = chunk, exdev, xdir, logfd
         self.cwd = os.getcwd() + '/'
         self.info = {}
@@ -78,21 +92,29 @@ class Rec:
 
     def dump(self, status, exc=None):
         data = {'events': self.events, 'writes': [w.decode('latin1') for w in self.writes], 'info': self.info,
-                'status': status, 'exc': exc, 'other': self.other}
+                'status': status, 'exc': exc, 'other': self.other, 'fired': self.fired, 'wsrc': self.wsrc}
         _real['write'](self.logfd, json.dumps(data).encode())
 
     def die(self):
         self.dump('crashed')
         os._exit(77)
 
+    def trip(self):
+        """the fault: instantaneous death, or an exception that unwinds the stack (raised once)"""
+        if self.mode == 'kill':
+            self.die()
+        self.crash, self.fired = None, len(self.events)
+        raise {'SystemExit': SystemExit(1), 'KeyboardInterrupt': KeyboardInterrupt(),
+               'OSError': OSError(errno.EIO, 'injected I/O error')}[self.mode]
+
     def before(self):
         if self.crash == (len(self.events), 'before'):
-            self.die()
+            self.trip()
 
     def after(self, ev):
         self.events.append(ev)
         if self.crash == (len(self.events) - 1, 'after'):
-            self.die()
+            self.trip()
 
 
 _real = {}
@@ -106,7 +128,12 @@ class TempProxy:
     def _bytes(self, data):
         return data.encode(self._enc) if isinstance(data, str) else bytes(data)
 
+    def _src(self):
+        f = sys._getframe(3)       # caller of AtomicFile.write/writelines
+        self._rec.wsrc.append([os.path.basename(f.f_code.co_filename), f.f_lineno])
+
     def write(self, data):
+        self._src()
         self._rec.before()
         r = self._fd.write(data)
         b = self._bytes(data)
@@ -117,6 +144,7 @@ class TempProxy:
     def writelines(self, lines):
         lines = list(lines)
         b = b''.join(self._bytes(x) for x in lines)
+        self._src()
         self._rec.before()
         r = self._fd.writelines(lines)
         self._rec.writes.append(b)
@@ -337,6 +365,10 @@ def loaded_state(caller, path, scratch):
     """loaded_state_here in a forked child: the real loaders keep class-level state across loads
     (IrcUserCreator.u, IrcChannelCreator.name ...: a load aborted by a truncated file poisons the next
     load in the same process), so every load gets a process of its own, as after a restart"""
+    if caller == 'raw':
+        return None, []         # no loader: nothing to fork for
+    if not os.path.exists(path):
+        return loaded_state_here(caller, path, scratch)      # constant answer, no loader runs
     r, w = os.pipe()
     pid = os.fork()
     if pid == 0:
@@ -424,44 +456,67 @@ def child_main(inp, crash, xdir, logfd):
     bdir = {'none': None, 'dir': 'backup', 'devnull': '/dev/null'}[backup]
     rec = Rec(crash, inp.get('chunk', 0), tmp == 'exdev', xdir, logfd)
     target = target_of(inp)
+    if rec.mode != 'kill':       # "Exception ignored in __del__" of a half-constructed object goes to stderr
+        dn = os.open(os.devnull, os.O_WRONLY)
+        os.dup2(dn, 2)
+    action = fd = None
     try:
-        if inp['caller'] == 'raw':
-            action = None
-        elif inp['caller'] == 'vacuum':
-            action = dbi.FlatfileMapping(target).vacuum
-        else:
-            action = build_db(inp['caller'], inp['new'], target)
-        ufile.AtomicFile.default.tmpDir = tmpdir
-        ufile.AtomicFile.default.backupDir = bdir
-        instrument(rec, inp)
-        if action is not None:
-            action()
-        else:
-            kw = {}
-            if inp.get('mbis') is not None:
-                kw['makeBackupIfSmaller'] = inp['mbis']
-            if inp.get('aeo') is not None:
-                kw['allowEmptyOverwrite'] = inp['aeo']
-            if inp.get('explicit_dirs'):
-                kw['tmpDir'], kw['backupDir'] = tmpdir, bdir
-            res = []
-            rec.info['results'] = res
-            fd = ufile.AtomicFile(target, **kw)
-            for o in inp['ops']:
-                try:
-                    if o[0] == 'w':
-                        fd.write(o[1])
-                    elif o[0] == 'close':
-                        fd.close()
-                    elif o[0] == 'rollback':
-                        fd.rollback()
+        try:
+            if inp['caller'] == 'raw':
+                action = None
+            elif inp['caller'] == 'vacuum':
+                action = dbi.FlatfileMapping(target).vacuum
+            else:
+                action = build_db(inp['caller'], inp['new'], target)
+            ufile.AtomicFile.default.tmpDir = tmpdir
+            ufile.AtomicFile.default.backupDir = bdir
+            instrument(rec, inp)
+            if action is not None:
+                action()
+            else:
+                kw = {}
+                if inp.get('mbis') is not None:
+                    kw['makeBackupIfSmaller'] = inp['mbis']
+                if inp.get('aeo') is not None:
+                    kw['allowEmptyOverwrite'] = inp['aeo']
+                if inp.get('explicit_dirs'):
+                    kw['tmpDir'], kw['backupDir'] = tmpdir, bdir
+                res = []
+                rec.info['results'] = res
+                if inp.get('with'):
+                    # context-manager style: __exit__ commits, or rolls back when an exception is in flight
+                    with ufile.AtomicFile(target, **kw) as fd:
+                        for o in inp['ops'][:-1]:
+                            fd.write(o[1])
+                            res.append('ok')
                     res.append('ok')
-                except ValueError:
-                    res.append('ValueError')
-                except OSError:
-                    res.append('OtherError')
-            # the object dies with the process: no __del__ side effects after the last op
-        rec.dump('completed')
+                else:
+                    fd = ufile.AtomicFile(target, **kw)
+                    for o in inp['ops']:
+                        try:
+                            if o[0] == 'w':
+                                fd.write(o[1])
+                            elif o[0] == 'close':
+                                fd.close()
+                            elif o[0] == 'rollback':
+                                fd.rollback()
+                            res.append('ok')
+                        except (ValueError, OSError) as e:
+                            if rec.fired is not None:
+                                raise          # the injected fault is not the driver's to swallow
+                            res.append('ValueError' if isinstance(e, ValueError) else 'OtherError')
+        except BaseException as e:
+            if rec.fired is None:
+                raise
+            rec.info['raised'] = type(e).__name__
+        rec.info.setdefault('n_ops_events', len(rec.events))
+        if rec.mode != 'kill':
+            rec.crash = None      # an exception inside __del__ is ignored by the interpreter: not a fault point
+        # the stack is unwound: frames and the traceback are gone, the AtomicFile object is collected
+        # (__del__) exactly as when the exception reaches the top level of a real process
+        action = fd = None
+        # (reference counting alone collects it: no gc.collect(), which would copy the whole forked heap)
+        rec.dump('unwound' if rec.fired is not None else 'completed')
         os._exit(0)
     except BaseException:
         rec.dump('exception', traceback.format_exc()[-1500:])
@@ -658,7 +713,7 @@ def evaluate(ctx, cases, limit=40, kind_prefix=''):
             # not (one) AtomicFile: no model prediction, but the crash points are still enumerated for the direct oracle
             ctx.disagree(c, 'one AtomicFile session', log['info'].get('sessions', []), 'the flush does not go through exactly one AtomicFile')
             n = len(log['events'])
-            pts = [tuple(c['crash'])] if c.get('crash') else crash_points(ctx, log['events'], limit)
+            pts = [tuple(c['crash'][:2])] if c.get('crash') else crash_points(ctx, log['events'], limit)
             infos.append({'fn': target_of(c), 'pts': pts, 'ks': [], 'n': n, 'full_temp': True, 'nomodel': True})
             wires.append(None)
             continue
@@ -674,11 +729,12 @@ def evaluate(ctx, cases, limit=40, kind_prefix=''):
                         ops.append([0, wire_bytes(o[1].encode('utf8').decode('latin1'))])
                 else:
                     ops.append([1] if o[0] == 'close' else [2])
+            ops.append([2])
         else:
             ops.append([1])
         fs0 = [] if r['old'] is None else [[wire_bytes(fn), wire_bytes(r['old'])]]
         n = len(log['events'])
-        pts = [tuple(c['crash'])] if c.get('crash') else crash_points(ctx, log['events'], limit)
+        pts = [tuple(c['crash'][:2])] if c.get('crash') else crash_points(ctx, log['events'], limit)
         ks = sorted({i + (side == 'after') for i, side in pts} | {0, n})
         full_temp = n <= 200
         wires.append([0, [fn, TOKEN, str(NOW), cfg, fs0, ops, c.get('chunk', 0), ks, full_temp]])
@@ -702,7 +758,8 @@ def evaluate(ctx, cases, limit=40, kind_prefix=''):
         final = r['files'].get(info['fn'])
         new = ''.join(log['writes']) if not info.get('nomodel') else (final or '')
         aeo = log['info']['sessions'][0]['aeo'] if not info.get('nomodel') else True
-        info.update(old=r['old'], new=new, old_state=r['old_state'], new_state=r['state'], final=final)
+        info.update(old=r['old'], new=new, old_state=r['old_state'], new_state=r['state'], final=final,
+                    events=canon_events(log['events']))
         if m is not None:
             if isinstance(m, tuple):
                 ctx.disagree(c, m, None, 'model error')
@@ -718,7 +775,7 @@ def evaluate(ctx, cases, limit=40, kind_prefix=''):
                     ctx.disagree(c, meffs, canon_events(log['events']), 'effect sequence of the uncrashed run')
                 if names[0] != log['info']['sessions'][0]['temp']:
                     ctx.disagree(c, names[0], log['info']['sessions'][0]['temp'], 'temp file name')
-                if c['caller'] == 'raw' and mres != log['info']['results']:
+                if c['caller'] == 'raw' and mres[:-1] != log['info']['results']:
                     ctx.disagree(c, mres, log['info']['results'], 'results of the method calls')
                 check_disk(ctx, c, info, r, info['n'], None, True)
         # direct oracle on the complete run: the save worked (or was legitimately refused)
@@ -735,22 +792,115 @@ def evaluate(ctx, cases, limit=40, kind_prefix=''):
                 ctx.fail(full, 'rollback changed the target: %s' % short(final))
             if not info.get('nomodel') and log['info']['sessions'][0]['temp'] in r['files']:
                 ctx.fail(full, 'rollback left the temp file behind')
-        for pt in info['pts']:
-            jobs.append({'inp': c, 'crash': list(pt)})
-            owner.append((ci, pt))
+        info['wire'] = wires[ci]
+        for pt, mode in fault_plan(ctx, c, info, log, ci):
+            jobs.append({'inp': c, 'crash': list(pt) + ([mode] if mode != 'kill' else [])})
+            owner.append((ci, pt, mode))
+    # model prediction for the flushes interrupted by an exception: prefix k, then the unwinding
+    uw_keys = sorted({(ci, pt[0] + (pt[1] == 'after'), pt[0] != 0) for ci, pt, mode in owner
+                      if mode != 'kill' and infos[ci].get('wire') is not None and 'names' in infos[ci]})
+    uw_out = ctx.model([[4, infos[ci]['wire'][1][:7] + [k, inited, infos[ci]['full_temp']]] for ci, k, inited in uw_keys]) \
+        if uw_keys else []
+    uw = dict(zip(uw_keys, uw_out))
+    # callers that swallow the OSError of a write (table: SWALLOW_WRITE_ERROR_SITES) go on and commit without that chunk
+    sw_keys = sorted({(ci, pt) for ci, pt, mode in owner if mode == 'OSError' and infos[ci].get('wire') is not None
+                      and 'names' in infos[ci] and swallowed_write(recs[ci]['log'], pt) is not None})
+    sw_wires = []
+    for ci, pt in sw_keys:
+        j = swallowed_write(recs[ci]['log'], pt)
+        w = list(infos[ci]['wire'][1])
+        wops = [o for o in w[5] if o[0] == 0]
+        if pt[1] == 'before':
+            del wops[j]
+        w[5] = wops + [o for o in w[5] if o[0] != 0]
+        w[7] = [100000]          # beyond the last effect: the final state
+        sw_wires.append([0, w])
+    sw = dict(zip(sw_keys, ctx.model(sw_wires) if sw_wires else []))
     res = run_jobs(jobs)
-    for (ci, pt), r in zip(owner, res):
+    for (ci, pt, mode), r in zip(owner, res):
         c, info = cases[ci], infos[ci]
-        inp = dict(c, crash=list(pt))
-        ctx.case(kind_prefix + c['caller'] + '/' + c.get('tmp', 'none') + '/' + pt[1], inp,
+        inp = dict(c, crash=list(pt) + ([mode] if mode != 'kill' else []))
+        ctx.case(kind_prefix + c['caller'] + '/' + c.get('tmp', 'none') + '/' + pt[1] + ('' if mode == 'kill' else '/' + mode), inp,
                  nontrivial=(pt[0] + (pt[1] == 'after')) > 0)
-        if r.get('error') or r.get('exit') != 77:
-            ctx.disagree(inp, 'crash at %r' % (pt,), {k: r.get(k) for k in ('error', 'exit', 'log')}, 'crash point not reached')
-            continue
         k = pt[0] + (pt[1] == 'after')
-        if 'states' in info:
-            check_disk(ctx, inp, info, r, k, pt, False)
+        if mode == 'kill':
+            if r.get('error') or r.get('exit') != 77:
+                ctx.disagree(inp, 'crash at %r' % (pt,), {k: r.get(k) for k in ('error', 'exit', 'log')}, 'crash point not reached')
+                continue
+            if 'states' in info:
+                check_disk(ctx, inp, info, r, k, pt, False)
+        else:
+            log = r.get('log')
+            if r.get('error') or r.get('exit') != 0 or not log or log['status'] != 'unwound' or log['fired'] != k:
+                ctx.disagree(inp, '%s raised at %r' % (mode, pt), {k: r.get(k) for k in ('error', 'exit', 'log')}, 'fault point not reached')
+                continue
+            m = uw.get((ci, k, pt[0] != 0))
+            if mode == 'OSError' and (ci, pt) in sw:
+                m = sw[(ci, pt)]
+                m = m if (m is None or isinstance(m, tuple)) else [m[2], m[3][0]]
+            if m is not None:
+                if isinstance(m, tuple):
+                    ctx.disagree(inp, m, None, 'model error')
+                else:
+                    meffs = [dec_eff(e) for e in m[0]]
+                    if meffs != canon_events(log['events']):
+                        ctx.disagree(inp, meffs, canon_events(log['events']),
+                                     'effect sequence of the flush interrupted by %s %s effect %d' % (mode, pt[1], pt[0]))
+                    st = m[1]
+                    want = [dec_opt(st[0]), dec_opt(st[1]) if info['full_temp'] else (None if st[1] == [] else st[1][0]), dec_opt(st[2])]
+                    fn, (temp, backup) = info['fn'], info['names']
+                    got = [r['files'].get(fn), r['files'].get(temp), r['files'].get(backup)]
+                    cmp_got = [got[0], len(got[1]) if (isinstance(want[1], int) and got[1] is not None) else got[1], got[2]]
+                    extra = sorted(set(r['files']) - {fn, temp, backup})
+                    if cmp_got != want or extra:
+                        ctx.disagree(inp, [short(x) for x in want], [short(x) for x in got] + extra,
+                                     'files on disk after %s was raised %s effect %d and the stack unwound' % (mode, pt[1], pt[0]))
         oracle(ctx, inp, c, info, r)
+
+
+MODES = ('SystemExit', 'KeyboardInterrupt', 'OSError')
+_swallow_lines = {}
+
+
+def swallowed_write(log, pt):
+    """index of the temp-file write that is effect pt[0], if its source line is a write whose OSError the caller swallows
+    (harness/tables/t17.py: the same extraction that fills SWALLOW_WRITE_ERROR_SITES); else None"""
+    if not _swallow_lines:
+        sys.path.insert(0, os.path.join(os.path.dirname(os.path.abspath(__file__)), 'tables'))
+        import t17
+        _swallow_lines.update(t17.call_sites()[3] or {'': set()})
+    sess = log['info'].get('sessions', [])
+    ev = log['events'][pt[0]]
+    if len(sess) != 1 or ev[0] != 'append' or ev[1] != sess[0]['temp']:
+        return None
+    j = sum(1 for e in log['events'][:pt[0]] if e[0] == 'append' and e[1] == sess[0]['temp'])
+    if j >= len(log.get('wsrc', [])):
+        return None
+    fn, line = log['wsrc'][j]
+    return j if line in _swallow_lines.get(fn, ()) else None
+
+
+def fault_plan(ctx, c, info, log, ci):
+    """[(point, mode)]: every crash point dies by kill; by SystemExit (what the SIGTERM handler raises); a fifth of them
+    (half in the thorough tier) by KeyboardInterrupt; the writes/close of the temp file also by an OSError"""
+    if c.get('crash'):
+        cr = c['crash']
+        return [((cr[0], cr[1]), cr[2] if len(cr) > 2 else 'kill')]
+    plan = [(pt, 'kill') for pt in info['pts']]
+    pts = info['pts'] if info['n'] <= 200 else info['pts'][:6] + info['pts'][-6:]
+    sess = log['info'].get('sessions', [])
+    temp = sess[0]['temp'] if len(sess) == 1 else None
+    nops = log['info'].get('n_ops_events', info['n'])
+    for pt in pts:
+        if pt[0] >= nops:
+            continue          # effects of the final collection of the object (__del__): exceptions there are ignored
+        plan.append((pt, 'SystemExit'))
+        if (ctx.scale > 1 and (pt[0] + ci) % 2 == 0) or (pt[0] + ci) % 5 == 0:
+            plan.append((pt, 'KeyboardInterrupt'))
+        ev = log['events'][pt[0]]
+        if ev[0] in ('append', 'close') and ev[1] == temp and (ctx.scale > 1 or pt[1] == 'before'):
+            plan.append((pt, 'OSError'))
+    return plan
 
 
 def short(s):
@@ -790,13 +940,15 @@ def oracle(ctx, inp, c, info, r):
     got = r['files'].get(fn)
     old, new = info['old'], info['new']
     if not (got == old or got == new or (old is None and got == '')):
-        ctx.fail(inp, 'after a kill %s effect %d (%s) the target is %s: neither the old (%s) nor the new (%s) version'
-                 % (inp['crash'][1], inp['crash'][0], r['log']['events'][-1:] or 'nothing done yet', short(got), short(old), short(new)))
+        how = 'a kill' if len(inp['crash']) < 3 else '%s raised (stack unwound, process exited normally)' % inp['crash'][2]
+        ctx.fail(inp, 'after %s %s effect %d of %s the target is %s: neither the old (%s) nor the new (%s) version'
+                 % (how, inp['crash'][1], inp['crash'][0], info.get('events', [])[inp['crash'][0]:inp['crash'][0] + 1] or 'the flush',
+                    short(got), short(old), short(new)))
         return
     if c['caller'] != 'raw':
         allowed = {info['old_state'], info['new_state']}
         if r['state'] not in allowed:
-            ctx.fail(inp, 'the file left by the crash does not load to the old or new state: %r' % (r['state'],))
+            ctx.fail(inp, 'the file left by the %s does not load to the old or new state: %r' % ('crash' if len(inp['crash']) < 3 else inp['crash'][2], r['state'],))
         bad = [p for p in r['opened'] if p != 'load_' + os.path.basename(fn)]
         if bad:
             ctx.fail(inp, 'the loader read files other than the target: %r' % bad)
@@ -804,9 +956,9 @@ def oracle(ctx, inp, c, info, r):
 
 # --------------------------------------------------------------------------
 # case generation
-def raw_case(old, writes, tmp='none', backup='none', mbis=None, aeo=None, end='close', chunk=0, ops=None, explicit=False):
+def raw_case(old, writes, tmp='none', backup='none', mbis=None, aeo=None, end='close', chunk=0, ops=None, explicit=False, with_=False):
     return {'caller': 'raw', 'old': old, 'ops': ops if ops is not None else [['w', w] for w in writes] + [[end]],
-            'tmp': tmp, 'backup': backup, 'mbis': mbis, 'aeo': aeo, 'chunk': chunk, 'explicit_dirs': explicit}
+            'tmp': tmp, 'backup': backup, 'mbis': mbis, 'aeo': aeo, 'chunk': chunk, 'explicit_dirs': explicit, 'with': with_}
 
 
 def db_case(caller, old, new, tmp='none', backup='none', chunk=0):
@@ -829,6 +981,8 @@ CORPUS = [
     raw_case('OLD-1 OLD-2 ', ['NEW-1 ', 'NEW-2 ', 'NEW-3 '], tmp='exdev', chunk=6),
     raw_case('OLD ' * 8, ['N'], tmp='exdev', backup='dir', chunk=5),
     raw_case('\xe9\xe8 old', ['\xe9€ new'], tmp='same', explicit=True),
+    raw_case('old content\n', ['new ', 'content\n'], with_=True),
+    raw_case('long old content ' * 4, ['short\n'], backup='dir', tmp='same', chunk=16, with_=True),
 ]
 
 TMPS = ['none', 'same', 'exdev', 'realxdev']
@@ -853,7 +1007,7 @@ def gen_raw(rng):
         ops = [rng.choice([['w', 'q'], ['close'], ['rollback']]) for _ in range(rng.randint(1, 5))]
     return raw_case(old, writes, tmp=tmp, backup=rng.choice(BACKUPS), mbis=rng.choice([None, True, False]),
                     aeo=rng.choice([None, True, False]), end=end, chunk=rng.choice([0, 1, 3, 7, 64, 4096]), ops=ops,
-                    explicit=rng.random() < 0.3)
+                    explicit=rng.random() < 0.3, with_=(ops is None and end == 'close' and rng.random() < 0.3))
 
 
 def gen_db(rng, caller):
@@ -883,6 +1037,8 @@ def run(ctx):
     # systematic part: every caller x every tmp mode, shrinking save (backup path) and growing save
     for caller in CALLERS:
         for tmp in TMPS:
+            if tmp == 'realxdev' and ctx.scale == 1 and caller not in ('users', 'registry'):
+                continue       # quick tier: the real second file system for two callers (+ raw), the injected EXDEV for all
             if caller == 'vacuum':
                 cases.append(db_case(caller, {'n': 4, 'v': 1, 'removed': 2}, None, tmp=tmp, backup='dir', chunk=32))
             elif caller == 'registry':
@@ -891,14 +1047,14 @@ def run(ctx):
                 cases.append(db_case(caller, {'n': 3, 'v': 1}, {'n': 1, 'v': 2}, tmp=tmp, backup='dir', chunk=32))
                 if tmp in ('none', 'exdev'):
                     cases.append(db_case(caller, None if tmp == 'none' else {'n': 1, 'v': 0}, {'n': 3, 'v': 3}, tmp=tmp, chunk=50))
-    for _ in range(ctx.n(40)):
+    for _ in range(ctx.n(28)):
         cases.append(gen_raw(rng))
-    for _ in range(ctx.n(16)):
+    for _ in range(ctx.n(10)):
         cases.append(gen_db(rng, rng.choice(CALLERS)))
     cases = [c for c in cases if usable(c)]
     if not xdev_available():
         ctx.notes.append('no second file system available: cross-device cases use the injected EXDEV only')
-    evaluate(ctx, cases, limit=30 if ctx.scale == 1 else 80)
+    evaluate(ctx, cases, limit=22 if ctx.scale == 1 else 80)
     # the whole configuration of the bot (thousands of writes): sampled crash points
     big = [db_case('registry', {'n': 0, 'v': 1}, {'n': 1, 'v': 2}, tmp='same', backup='dir')]
     if ctx.scale > 1:
@@ -906,7 +1062,9 @@ def run(ctx):
     evaluate(ctx, big, limit=24 if ctx.scale == 1 else 120, kind_prefix='full-')
 
 
-CLASSES = {'tmpdir_other_fs': lambda inp: inp.get('tmp') in ('exdev', 'realxdev') and
+CLASSES = {'write_error_swallowed': lambda inp: inp.get('caller') in ('registry', 'userdata') and
+           len(inp.get('crash') or []) > 2 and inp['crash'][2] == 'OSError' and inp.get('tmp') not in ('exdev', 'realxdev'),
+           'tmpdir_other_fs': lambda inp: inp.get('tmp') in ('exdev', 'realxdev') and
            (inp.get('caller') != 'raw' or any(o[0] == 'close' for o in inp.get('ops', [])))}
 
 
